@@ -20,7 +20,7 @@
                                                   pending is a pair of proposals (a COMMITTED one whose apply phase was not
                                                   started - its transaction is parked at such a gate - and its successor in
                                                   APPLYING) that, whatever the oracle, do nothing but re-queue each other: no
-                                                  delivery order ever empties the queue or changes the world (F-22; the
+                                                  delivery order ever empties the queue or changes the world (F-C09-22; the
                                                   mutual re-queueing is observed on the real reconcilers by the p2 harness)
    The repaired shapes are regression Examples in Proofs/P2_QueueWitness.v (regression_dead_prev, _apply_failed,
    _initfail_successor, _sync_wakeup, _two_changes_offline, _partial_apply_failure: complete histories of the scenarios
@@ -58,7 +58,7 @@ Section C09.
   Context {V Ch Req D : Type}.
   Context (candidate : V -> Ch -> V) (candidate_rb : V -> Ch -> V) (rollback_of : V -> Ch -> Ch)
           (overlay : V -> V -> V) (commit_merge : N -> N -> V -> V -> Ch -> V)
-          (payload : N -> V -> Ch -> option Req) (record_applied : N -> V -> V -> V -> Ch -> V)
+          (payload : N -> V -> Ch -> option Req) (record_applied : N -> N -> V -> V -> V -> Ch -> V)
           (touched : N -> V -> Ch -> V) (restore : V -> V -> V)
           (resync_payload : V -> list (option Req)) (doc_ok : V -> bool)
           (dev_apply : D -> Req -> D) (stamp : N -> Ch -> Ch) (v_empty : V) (d_empty : D) (ch_empty : Ch).
